@@ -321,6 +321,12 @@ for _p in ("C01", "C02", "C03", "C04", "C05", "C06", "C07", "C14"):
         if _m["mode"] != "directed":
             _m["quick"]["runs"] *= 4
 
+# the other cheap engines: larger quick budgets as well (each still ends within about half a minute)
+for _p, _f in (("C09", 4), ("C11", 4), ("C13", 3), ("C16", 3), ("C18", 3), ("C20", 2)):
+    for _m in PROPS[_p]["modes"]:
+        if "enum" not in _m["mode"]:
+            _m["quick"]["runs"] *= _f
+
 ENGINES = [
     {"name": "txnsim", "path": "sim/engines/txnsim", "serves_properties": ["C01", "C02", "C03", "C04", "C05", "C06", "C07", "C14"],
      "kind_free_text": "whole-system deterministic simulation of transactional clients (synctest bubble, simulated transport / PD / TSO, seeded fault injection, MVCC ground-truth oracles)"},
